@@ -109,6 +109,7 @@ type vsSched struct {
 	chanOf  func(ch interface{}) string      // "" = not a channel of interest
 	timerOf func(ch interface{}) *time.Timer // timer behind a channel a wait point listens on (nil = none)
 	quiet   func(site string) bool           // sites that are traced but are not schedule points (may be nil)
+	quietOp func(word, fn string) bool       // (word, atomic function) pairs that are traced but are not schedule points (may be nil)
 	// statistics
 	siteHits map[string]int
 	nTask    int
@@ -261,6 +262,9 @@ func (s *vsSched) Pre(site, fn string, addr unsafe.Pointer) {
 		return
 	}
 	if s.quiet != nil && s.quiet(site) {
+		return
+	}
+	if s.quietOp != nil && s.quietOp(s.wordOf(addr), fn) {
 		return
 	}
 	if a.atomicMode {
@@ -462,13 +466,14 @@ func (s *vsSched) Sendmsg(site string, fd int, bs [][]byte, ivs []syscall.Iovec,
 	if !a.atomicMode {
 		s.parkHere(a, vsParkPoint, site, nil, "", nil)
 	}
+	vecs := len(bs) // GetBytes fills at most barriercap vectors: with that many, the offer may be a proper prefix of the buffer
 	n, err, offered, handled := s.kernel(a, site, fd, bs, ivs)
 	if !handled {
 		s.siteHits["~"+site]++
 		return 0, nil, false
 	}
 	s.siteHits[site]++
-	s.line("K %s %s sendmsg %d %d %s", a.name, site, offered, n, vsErrName(err))
+	s.line("K %s %s sendmsg %d %d %s vecs=%d", a.name, site, offered, n, vsErrName(err), vecs)
 	return n, err, true
 }
 
